@@ -29,7 +29,8 @@
 (*     choice) and the invariants                                          *)
 (*       InvIsInverse    Plan(Translate(inv P), d) = Plan(Translate(P),    *)
 (*                       opposite d), same results and counts              *)
-(*       LocalsWin       globals never override a step's own arguments     *)
+(*       LocalsWin       globals never override a step's own arguments,    *)
+(*       RewrittenLocalsWin  also not where a/rf and k are rewritten       *)
 (*       OrderKept       step order is kept (reversed under inv)           *)
 (*       OmitMeaning     a step is skipped in direction d of Translate(P)  *)
 (*                       exactly when PROJ would skip it                   *)
@@ -225,6 +226,21 @@ LocalsWin == ~Refused(Case) =>
                     IN r.ok /\ r.v = (IF HasKey(s.args, g[1]) THEN s.args[LastIdx(s.args, g[1])].v.v
                                       ELSE IF HasKey(Pj.globals, g[1]) THEN Pj.globals[LastIdx(Pj.globals, g[1])].v.v
                                       ELSE g[2])
+
+\* the same for the keys the translation rewrites: the ellipsoid of a step is built from the step's own a / rf
+\* where it has them and from the pipeline's otherwise; likewise k (as k_0)
+RewrittenLocalsWin == ~Refused(Case) =>
+    \A i \in 1..Len(Pj.steps) :
+        LET s == Pj.steps[i]
+            all == Pj.globals \o s.args
+            t == Tidy(all)
+            pick(k) == ValWord((IF HasKey(s.args, k) THEN s.args[LastIdx(s.args, k)] ELSE Pj.globals[LastIdx(Pj.globals, k)]).v)
+        IN /\ (HasKey(all, "a") /\ HasKey(all, "rf") /\ ~HasKey(all, "ellps")) =>
+                /\ ~HasKey(t, "a") /\ ~HasKey(t, "rf")
+                /\ t[LastIdx(t, "ellps")].v = [f |-> "list", s |-> <<pick("a"), pick("rf")>>]
+           /\ HasKey(all, "k") =>
+                /\ ~HasKey(t, "k")
+                /\ (~HasKey(all, "k_0") => ValWord(t[LastIdx(t, "k_0")].v) = pick("k"))
 
 \* step order is kept
 OrderKept == ~Refused(Case) =>
